@@ -87,6 +87,11 @@ func interestingCuts(s gen.Shape, in []byte) map[string][]int {
 		if in[i] == '\r' && i+1 < len(in) && in[i+1] == '\n' {
 			out["crlf"] = append(out["crlf"], i+1)
 		}
+		// a chunk that starts exactly where a line / record starts (with one big chunk size the last such cut makes the
+		// final chunk one whole row, possibly returned together with io.EOF)
+		if in[i] == '\n' && i+1 < len(in) {
+			out["rowstart"] = append(out["rowstart"], i+1)
+		}
 		if s.EDI != nil && s.EDI.Release != "" && in[i] == s.EDI.Release[0] && i+1 < len(in) {
 			out["escape"] = append(out["escape"], i+1)
 		}
@@ -126,7 +131,7 @@ func drawSchedule(t *rapid.T, label string, in []byte, cuts map[string][]int) ru
 		s.Sizes = []int{1 << 20}
 	}
 	// forced cuts inside interesting byte pairs
-	classes := []string{"rune", "crlf", "escape", "delim", "bom"}
+	classes := []string{"rune", "crlf", "escape", "delim", "bom", "rowstart"}
 	for _, cl := range classes {
 		offs := cuts[cl]
 		if len(offs) == 0 {
